@@ -556,6 +556,27 @@ impl<'a> Trainer<'a> {
             .collect()
     }
 
+    /// Returns the stored problem of the boundary learner as it is: the labels, the sparse
+    /// feature vectors (feature id, value) in their stored order, and the id of every feature.
+    #[cfg(feature = "verif-hooks")]
+    #[allow(clippy::type_complexity)]
+    pub fn verif_problem(
+        &self,
+    ) -> (
+        Vec<f64>,
+        Vec<Vec<(u32, f64)>>,
+        Vec<(crate::verif_hooks::HookFeature, u32)>,
+    ) {
+        (
+            self.ys.clone(),
+            self.xs.clone(),
+            self.feature_ids
+                .iter()
+                .map(|(feature, &fid)| (feature.to_hook(), fid))
+                .collect(),
+        )
+    }
+
     /// Returns the number of boundary features.
     pub fn n_features(&self) -> usize {
         self.feature_ids.len()
